@@ -2,8 +2,8 @@
 # After tools/incoming_matrix.sh: copies up to two shrunk killers (JSON replay files) per seeded change into
 # replays/regress/<prop>/ so that every quick run replays them first. Only files that pass on the clean tree are kept.
 cd /verif
-for log in work/im.C*-*.log; do
-  id=$(basename $log .log); id=${id#im.}; c=${id%-*}
+for log in work/matrix.C*-*.log; do
+  id=$(basename $log .log); id=${id#matrix.}; c=${id%-*}
   k=0
   grep '^VIOLATION' $log | sed 's/.*replay=//' | while read f; do
     case "$f" in *.json) ;; *) continue;; esac
